@@ -50,18 +50,28 @@ class LifecycleImpl:
         self.clk = int(init.get("clk", 0))
         mkc = lambda: LinearDense((NB,), (NB,), DT, synapse=DeltaCurrent.partialconstructor(DT))
         mkn = lambda: ExactNeuron((NB,), DT, rest_v=-60.0, thresh_v=-50.0)
+        def mklayer(conns, neurons):
+            for _, c in conns:
+                c.updater = c.defaultupdater()
+            return Biclique(conns, neurons)
+
         if self.cfg["share"] == "neuron":
-            conns, neurons = [("c1", mkc()), ("c2", mkc())], [("n", mkn())]
-            self.cellkeys = {"a": ("c1", "n"), "b": ("c2", "n")}
+            self.layers = [mklayer([("c1", mkc()), ("c2", mkc())], [("n", mkn())])]
+            self.cellkeys = {"a": (0, "c1", "n"), "b": (0, "c2", "n")}
+        elif self.cfg["share"] == "conn":
+            self.layers = [mklayer([("c1", mkc())], [("n1", mkn()), ("n2", mkn())])]
+            self.cellkeys = {"a": (0, "c1", "n1"), "b": (0, "c1", "n2")}
         else:
-            conns, neurons = [("c1", mkc())], [("n1", mkn()), ("n2", mkn())]
-            self.cellkeys = {"a": ("c1", "n1"), "b": ("c1", "n2")}
-        for _, c in conns:
-            c.updater = c.defaultupdater()
-        self.conn_names = [k for k, _ in conns]
-        self.neuron_names = [k for k, _ in neurons]
-        self.layer = Biclique(conns, neurons)
-        self.layer.train(bool(init.get("ltr", True)))
+            # two layers with identical component names: identical attribute paths and tags,
+            # only the basis (layer) tells the cells apart
+            self.layers = [mklayer([("c1", mkc())], [("n", mkn())]), mklayer([("c1", mkc())], [("n", mkn())])]
+            self.cellkeys = {"a": (0, "c1", "n"), "b": (1, "c1", "n")}
+        ltr = init.get("ltr", [True, True])
+        for i, layer in enumerate(self.layers):
+            layer.train(bool(ltr[i]))
+        # which variant / amplitude / tags every monitor object was built with: known from the
+        # arguments of the call that returned a new object (weak keys: no reference is kept)
+        self.ledger = weakref.WeakKeyDictionary()
         # learning-rate magnitude = trace amplitude; differs per cell unless samehp
         self.amp = {"a": 1.0, "b": 1.0 if self.cfg["samehp"] else 0.5}
         self.trainers = []
@@ -77,17 +87,30 @@ class LifecycleImpl:
 
     # ------------------------------------------------------------------ helpers
     def cell(self, cname):
-        return self.layer.get_cell(*self.cellkeys[cname])
+        li, c, n = self.cellkeys[cname]
+        return self.layers[li].get_cell(c, n)
 
     def _hp(self, cname):
         a = self.amp[cname]
         return {"lr_post": a, "lr_pre": -a}
 
-    def _standard_monitor(self, t: int, cname: str, m: int):
-        """Arguments with which the shipped trainer itself installs the monitor named NAMES[m-1]."""
+    def _amp(self, cname, var):
+        return self.amp[cname] if var == "std" else 0.25
+
+    def _standard_monitor(self, t: int, cname: str, m: int, unique=None, var="std"):
+        """Arguments with which the shipped trainer itself installs the monitor named NAMES[m-1]
+        (var = "std"), or the same monitor with another amplitude and an extra tag (var = "alt")."""
+        args, tags = self._standard_monitor0(t, cname, m, var)
+        if var == "alt":
+            tags = dict(tags, alt=1)
+        if unique is not None:
+            args = args[:4] + (bool(unique),)
+        return args, tags
+
+    def _standard_monitor0(self, t: int, cname: str, m: int, var: str):
         cell = self.cell(cname)
         dt = cell.connection.dt
-        a = self.amp[cname]
+        a = self._amp(cname, var)
         mk = dict(as_prehook=False, train_update=True, eval_update=False)
         stdp = self.ttypes[t] == "stdp"
         name = NAMES[m - 1]
@@ -121,6 +144,15 @@ class LifecycleImpl:
         return (cname, name, "monitors", ctor, True), {}
 
     # ------------------------------------------------------------------ decoding
+    def _note_new(self, t: int, cname: str, var="std", unique=None):
+        """Record how the monitor objects listed under (t, cname) that were not seen before were built."""
+        trainer = self.trefs[t]()
+        for m, name in enumerate(NAMES, start=1):
+            mon = trainer.get_monitor(cname, name)
+            if mon is not None and mon not in self.ledger:
+                u = (m >= 5) if unique is None else bool(unique)
+                self.ledger[mon] = {"var": var, "tag": not u, "amp": self._amp(cname, var)}
+
     def _decode(self, mon, m: int, amp: float):
         kind = "trace" if m in (1, 3) else ("pass" if m in (2, 4) else "elig")
         v = mon.peek()
@@ -170,7 +202,7 @@ class LifecycleImpl:
                         continue
                     if id(mon) not in ids:
                         ids[id(mon)] = len(order) + 1
-                        order.append((mon, m, self.amp[c]))
+                        order.append((mon, m))
                     row.append(ids[id(mon)])
                 rows.append(row)
                 red = False
@@ -184,10 +216,14 @@ class LifecycleImpl:
             pool.append(rows)
             redir.append(rd)
             del trainer
-        ph = [{"reg": bool(mon.registered), "rec": self._decode(mon, m, amp)} for mon, m, amp in order]
+        ph = []
+        for mon, m in order:
+            led = self.ledger.get(mon) or {"var": "?", "tag": False, "amp": 1.0}   # an object nobody asked for
+            ph.append({"reg": bool(mon.registered), "rec": self._decode(mon, m, led["amp"]), "var": led["var"],
+                       "tag": led["tag"]})
         del order
-        return {"cfg": self.cfg, "ltr": bool(self.layer.training), "clk": self.clk, "tr": tr, "pool": pool,
-                "ph": ph, "redir": redir}
+        ltr = [bool(layer.training) for layer in self.layers] + [True] * (2 - len(self.layers))
+        return {"cfg": self.cfg, "ltr": ltr, "clk": self.clk, "tr": tr, "pool": pool, "ph": ph, "redir": redir}
 
     # ------------------------------------------------------------------ operations
     def apply(self, op: dict) -> dict:
@@ -197,23 +233,34 @@ class LifecycleImpl:
         v, err = [], ""
         try:
             if a == "register_cell":
-                trainer.register_cell(cname, self.cell(cname), **self._hp(cname))
+                try:
+                    trainer.register_cell(cname, self.cell(cname), **self._hp(cname))
+                finally:
+                    self._note_new(op["t"] - 1, cname)
+            elif a == "add_cell":
+                trainer.add_cell(cname, self.cell(cname))
+            elif a == "update":
+                trainer.update()
             elif a == "del_cell":
                 trainer.del_cell(cname)
             elif a == "add_monitor":
-                args, tags = self._standard_monitor(op["t"] - 1, cname, op["m"])
-                trainer.add_monitor(*args, **tags)
+                args, tags = self._standard_monitor(op["t"] - 1, cname, op["m"], op["u"], op["var"])
+                try:
+                    trainer.add_monitor(*args, **tags)
+                finally:
+                    self._note_new(op["t"] - 1, cname, op["var"], op["u"])
             elif a == "del_monitor":
                 trainer.del_monitor(cname, NAMES[op["m"] - 1])
             elif a == "ttrain":
                 trainer.train(bool(op["b"]))
             elif a == "ltrain":
-                self.layer.train(bool(op["b"]))
+                self.layers[op["l"] - 1].train(bool(op["b"]))
             elif a == "step":
                 self.clk += 1
                 p = pattern(self.clk)
-                self.layer({k: (p,) for k in self.conn_names},
-                           neuron_kwargs={k: {"override": p.bool()} for k in self.neuron_names})
+                layer = self.layers[op["l"] - 1]
+                layer({k: (p,) for k, _ in layer.named_connections},
+                      neuron_kwargs={k: {"override": p.bool()} for k, _ in layer.named_neurons})
             elif a == "tstep":
                 try:
                     if self.ttypes[op["t"] - 1] == "mstdpet":
@@ -237,6 +284,15 @@ class LifecycleImpl:
                     v = [{"c": c, "m": n} for c, n in got]
                 elif what == "monitors":
                     v = [len(list(trainer.monitors))]
+                elif what == "of":
+                    v = [n for n, _ in trainer.named_monitors_of(cname)]
+                    v.sort(key=NAMES.index)
+                    if cname in dict(trainer.named_cells):
+                        unit = sorted(trainer.get_unit(cname).monitors.keys(), key=NAMES.index)
+                        it = [sorted(mons.keys(), key=NAMES.index) for cell, _, mons in trainer
+                              if cell is self.cell(cname)]
+                        if unit != v or it != [v]:
+                            v = v + ["!get_unit/__iter__ disagree"]
                 else:
                     byid = {id(self.cell(c)): c for c in CELLS}
                     v = sorted(byid.get(id(cell), "?") for cell, _ in trainer.cells)
